@@ -68,6 +68,9 @@ def get_evaluable_architecture(
         regex_exclusions = tuple(
             convert_partial_match_to_regex(pattern) for pattern in exclusions
         )
+    elif regex_exclusions is None:
+        # no pattern of either kind (e.g. exclusions=()): nothing is excluded
+        regex_exclusions = ()
 
     if external_exclusions:
         regex_external_exclusions = tuple(
